@@ -92,6 +92,14 @@ def outcome(fn):
         return ("e", type(e).__name__)
 
 
+def _yes(x):
+    """truth of a comparison result: True or numpy's True_ (segments made by the library can hold numpy
+    scalars, whose == returns np.bool_); NotImplemented and anything else count as no"""
+    if x is True:
+        return True
+    return type(x).__module__ == "numpy" and bool(x)
+
+
 def _num_close(a, b, rtol, atol):
     if isinstance(a, complex) or isinstance(b, complex):
         a, b = complex(a), complex(b)
@@ -438,7 +446,7 @@ class World:
             # both ways, and then (below) hash alike
             t = self.twin_seg(r)
             try:
-                ok = (r.obj == t) is True and (t == r.obj) is True and (r.obj != t) is False
+                ok = _yes(r.obj == t) and _yes(t == r.obj) and not _yes(r.obj != t)
             except Exception:
                 ok = False
             if not ok:
@@ -457,8 +465,8 @@ class World:
                 if type(a) is not type(b):
                     continue
                 try:
-                    got = ((a == b) is True, (b == a) is True, (a != b) is True)
-                    want = ((ta == tb) is True, (tb == ta) is True, (ta != tb) is True)
+                    got = (_yes(a == b), _yes(b == a), _yes(a != b))
+                    want = (_yes(ta == tb), _yes(tb == ta), _yes(ta != tb))
                 except Exception:
                     continue
                 if got != want:
@@ -483,7 +491,7 @@ class World:
                     eq = (a == b)
                 except Exception:
                     continue
-                if eq is True:
+                if _yes(eq):
                     self.bump(self.counters, "equal_pairs_checked")
                     if hs[i] != hs[j]:
                         self.violate(idx, "hash", "hash",
@@ -954,6 +962,52 @@ class World:
         def model(m):
             del m[:]
         return self._mutate(idx, op, lambda: p.clear(), model, "clear")
+
+    def op_approx_arcs(self, idx, op, entry):
+        """Path.approximate_arcs_with_cubics()/_with_quads(): in-place mutators of Path's own interface
+        that replace every Arc by library-made Bezier segments."""
+        if not self._have(p=[op["p"]]):
+            return "skipped"
+        pr = self.paths[op["p"]]
+        meth = "approximate_arcs_with_cubics" if op.get("kind", "cubics") == "cubics" else "approximate_arcs_with_quads"
+        err = float(op.get("error", 0.1))
+        if pr.warm:
+            pr.mutated_after_warm = True
+            self.nontrivial = True
+            self.probe("mutation_after_warm_cache")
+        tw = self.twin_path(pr)
+        toc = outcome(lambda: getattr(tw, meth)(error=err))
+        oc = outcome(lambda: getattr(pr.obj, meth)(error=err))
+        if oc[0] == "e":
+            self.bump(self.faults, "natural_failure")
+        if oc[0] != toc[0] or (oc[0] == "e" and oc[1] != toc[1]):
+            self.violate(idx, "other-query", meth, {"impl": self._render(oc), "fresh": self._render(toc)})
+        # adopt what the path now holds; segments that were there before keep their identity
+        try:
+            cur = list(pr.obj)
+        except Exception:
+            cur = []
+        model, n = [], 0
+        for o in cur:
+            sid = self.sid_of_obj(o)
+            if sid is None:
+                sid = op["sbase"] + n
+                n += 1
+                while sid in self.segs:
+                    sid += 1000
+                self.adopt_seg(sid, o, "approx")
+            model.append(sid)
+        kept_before = [x for x in pr.model if self.segs[x].kind != "A"]
+        kept_after = [x for x in model if x in set(pr.model)]
+        if oc[0] == "v" and (kept_before != kept_after or any(self.segs[x].kind == "A" for x in model)
+                             or C(Path(*cur)) != C(tw)):
+            self.violate(idx, "seq", "seq", {"note": meth + " left another segment list than on a fresh path",
+                                             "impl": C(Path(*cur)), "fresh": C(tw)})
+        pr.model = model
+        self.probe("arcs_approximated_in_place")
+        self.note_state(pr, "approx_arcs")
+        self.hash_sweep(idx)
+        return "ok" if oc[0] == "v" else "raised"
 
     def _retire_sharers(self, sid, except_pid=None):
         """A segment was edited: every *other* live path holding that object was edited behind its
@@ -1557,7 +1611,7 @@ def replay(hist, keep_log=False):
 # ----------------------------------------------------------------------------------------------
 
 PATH_MUT = ["setitem", "setslice", "insert", "append", "extend", "extend_self", "iadd", "delitem",
-            "delslice", "pop", "remove", "reverse", "clear", "set_start", "set_end"]
+            "delslice", "pop", "remove", "reverse", "clear", "set_start", "set_end", "approx_arcs"]
 PATH_Q = ["length", "length_T", "length_tol", "length_fail", "point", "T2t", "t2T", "ilength",
           "cropped", "start", "end", "bbox", "d", "iscontinuous", "isclosed", "len", "repr", "eq",
           "eq_twin", "derivative", "unit_tangent", "curvature", "normal", "closed", "isclosedac",
@@ -1612,6 +1666,7 @@ class Gen:
         self.nsegs = c.randint(2, 8)
         self.next_sid = 0
         self.next_pid = 0
+        self.queue = []
         self.last = None   # (kind, pid) of the previous op, for the bias of 2.4
 
     def config(self):
@@ -1762,6 +1817,10 @@ class Gen:
     def next_op(self, w):
         r = self.st["ops"]
         a = self.st["args"]
+        while self.queue:
+            op = self.queue.pop(0)
+            if op.get("p") is None or op["p"] in w.paths:
+                return op
         pids = sorted(w.paths)
         sids = sorted(w.segs)
         if not pids:
@@ -1822,6 +1881,16 @@ class Gen:
     def mut_op(self, m, a, w, pid, n):
         sids = sorted(w.segs)
         if m == "setitem":
+            pr = w.paths[pid]
+            if pr.model and a.random() < 0.15:
+                # write back a segment that is EQUAL to the one it replaces but another object: a fresh one
+                # built from the current defining values (for an Arc whose endpoint was assigned through
+                # Path.start/end that is an equal arc with another parameterisation)
+                i = a.randrange(len(pr.model))
+                dup = self.dup_op(a, w.segs[pr.model[i]], nudge=False)
+                if dup is not None:
+                    self.queue.append({"op": "setitem", "p": pid, "i": i, "s": dup["id"]})
+                    return dup
             return {"op": m, "p": pid, "i": self.idx(a, n), "s": a.choice(sids)}
         if m == "setslice":
             k = a.choice([0, 0, 1, 1, 2, 3])
@@ -1846,6 +1915,11 @@ class Gen:
             return {"op": m, "p": pid, "s": a.choice(pool)}
         if m in ("reverse", "clear"):
             return {"op": m, "p": pid}
+        if m == "approx_arcs":
+            sb = self.next_sid
+            self.next_sid += 64
+            return {"op": m, "p": pid, "kind": a.choice(["cubics", "quads"]), "error": a.choice([0.1, 0.1, 0.25, 0.05]),
+                    "sbase": sb}
         if m in ("set_start", "set_end"):
             return {"op": m, "p": pid, "z": zc(self.pt(a))}
         raise HarnessError(m)
@@ -1919,29 +1993,37 @@ class Gen:
             op["other"] = a.choice(sorted(w.segs))
         return op
 
+    def dup_op(self, a, src, nudge=True):
+        o = src.obj
+        if src.kind == "A":
+            if o.start == o.end:
+                return None
+            rot = float(o.rotation)
+            if nudge and a.random() < 0.35:
+                rot += 360.0 * a.choice([1, -1, 2])     # the same ellipse, rotation given another way round
+            sid = self.next_sid
+            self.next_sid += 1
+            return {"op": "new_seg", "id": sid, "kind": "A",
+                    "arc": {"start": zc(o.start), "radius": zc(o.radius), "rotation": rot,
+                            "large_arc": bool(o.large_arc), "sweep": bool(o.sweep), "end": zc(o.end)}}
+        if any(z is None for z in o.bpoints()):
+            # (parse_path of a degenerate d-string can yield Line(start=0j, end=None); nothing to copy)
+            return None
+        pts = [complex(z) for z in o.bpoints()]
+        if nudge and a.random() < 0.3:
+            j = a.randrange(len(pts))
+            pts[j] = complex(math.nextafter(pts[j].real, math.inf), pts[j].imag)
+        sid = self.next_sid
+        self.next_sid += 1
+        return {"op": "new_seg", "id": sid, "kind": src.kind, "pts": [zc(z) for z in pts]}
+
     def create_op(self, r, a, w, pids, sids):
         k = r.choice(self.create_on) if self.create_on else "new_seg"
         if k == "new_seg" or not sids:
             return self.new_seg_op(a)
         if k == "dup_seg":
             # a fresh object with the same (or 1-ulp different) control points as a live segment
-            src = w.segs[a.choice(sids)]
-            o = src.obj
-            sid = self.next_sid
-            self.next_sid += 1
-            if src.kind == "A":
-                return {"op": "new_seg", "id": sid, "kind": "A",
-                        "arc": {"start": zc(o.start), "radius": zc(o.radius), "rotation": float(o.rotation),
-                                "large_arc": bool(o.large_arc), "sweep": bool(o.sweep), "end": zc(o.end)}}
-            if any(z is None for z in o.bpoints()):
-                # (parse_path of a degenerate d-string can yield Line(start=0j, end=None); nothing to copy)
-                self.next_sid -= 1
-                return self.new_seg_op(a)
-            pts = [complex(z) for z in o.bpoints()]
-            if a.random() < 0.3:
-                j = a.randrange(len(pts))
-                pts[j] = complex(math.nextafter(pts[j].real, math.inf), pts[j].imag)
-            return {"op": "new_seg", "id": sid, "kind": src.kind, "pts": [zc(z) for z in pts]}
+            return self.dup_op(a, w.segs[a.choice(sids)]) or self.new_seg_op(a)
         if k == "new_path":
             pid = self.next_pid
             self.next_pid += 1
@@ -2134,7 +2216,7 @@ EXPECTED_PROBES = [
     "endpoint_assigned_where_segment_is_at_two_indices", "endpoint_assigned_on_arc", "closed_flag_path_created",
     "closed_flag_path_compared_equal_to_unflagged_path", "natural_RecursionError",
     "path_shares_segments_with_other_path", "path_retired_segment_edited_behind_its_back",
-    "path_cloned_with_its_caches", "query_on_path_of_total_length_zero",
+    "path_cloned_with_its_caches", "query_on_path_of_total_length_zero", "arcs_approximated_in_place",
 ]
 
 
